@@ -399,6 +399,7 @@ func (g *Gen) run() {
 			if p := in.Pos(); p.IsValid() {
 				g.curPos = p
 			}
+			g.curBlk, g.curIn = b, in
 			g.instr(in)
 		}
 		// successors
